@@ -81,6 +81,26 @@ def check_case(ctx, case):
     full = impl.canon_record(rec >> (case["m"] * n))
     if full.seq != wd or denot(full.feats, n) != d_in:
         ctx.fail("rotation by {} x length is not the identity".format(case["m"]), case)
+    # the record is curated in place and rotated again: the answer must describe the record as it is now
+    if n >= 2:
+        from Bio.SeqFeature import SeqFeature, SimpleLocation
+        a = ctx.rng.randrange(n)
+        b = ctx.rng.randint(a + 1, n)
+        rec.id = "edited"
+        rec.features.append(SeqFeature(SimpleLocation(a, b, 1), type="misc_feature", qualifiers={"label": ["u99"]}))
+        if rec.features and len(rec.features) > 1:
+            del rec.features[0]
+        rec.letter_annotations["track"] = [x + 1 for x in track]
+        fresh = impl.CircularRecord(rec)           # a new object holding what `rec` holds now
+        for kk2 in (k, k + n, k - n):
+            got, want = rec >> kk2, fresh >> kk2
+            cg, cw = impl.canon_record(got), impl.canon_record(want)
+            if got.id != "edited" or cg.seq != cw.seq or denot(cg.feats, n) != denot(cw.feats, n) or \
+                    got.letter_annotations.get("track") != want.letter_annotations.get("track"):
+                ctx.fail("after editing the record in place (id, features, track), >> {} still answers for the "
+                         "record as it was before the edit".format(kk2), case)
+                break
+        ctx.note("edited-then-rotated")
     ctx.note("len<=10" if n <= 10 else "len<=40" if n <= 40 else "len>40")
     ctx.note("wraps" if any(p[1] > n or p[0] < 0 for f in feats for p in f.parts) else "plain-coords")
     ctx.case(case, nontrivial=(n >= 2 and kk != 0))
